@@ -203,7 +203,10 @@ PENDING = {}
 COMMON_NOTE = ("Every run ends with a binding self-test: accepted trace lines are replayed to the trace specification with one recorded "
                "field corrupted each and must all be rejected (exit 2 otherwise; fields and counts in the evidence under binding_selftest).")
 EXTRA_NOTE = {
-    "C02": "Neutrino NC rows are also taken at a propagator ratio r/2^16 (weights far below 1e-8) and compared after exact rescaling, "
+    "C02": "The assembly model the theorem is proved on is itself bound to the code: for ~2 300 (thorough ~20 000) supported cells of every "
+           "order, scheme, heavyness, coupling restriction and a nuclear target the class keys, per-class summed parton weights and number of "
+           "flavours of Kernels.Assemble(cell) are compared with the real Combiner.collect_elems() (Emit_Asm / Trace_Asm; departures are "
+           "conformance notes counted in the evidence under assembly_conformance). Neutrino NC rows are also taken at a propagator ratio r/2^16 (weights far below 1e-8) and compared after exact rescaling, "
            "justified by the theorem C02_NeutrinoScaling checked by TLC at four ratios.",
     "C11": "The arithmetic the combination is carried out with (ESFResult + - *, the numpy dot of exs.py) is specified in Result.tla and "
            "bound by ~2 200 TLC-emitted programs executed by the real class; values and key sets are verdicts, dict order / error propagation "
